@@ -34,6 +34,22 @@ type names including the ones rzmq only meets on the wire and unknown names: a p
 theorem verdict_is_the_zeromq_pairing (x y : SockName) : typesCompatible x y = zeromqPairing x y := by
   cases x <;> cases y <;> decide
 
+/-- the greeting layout and the ZMTP/2.0 socket-type codes in the source are the ones of RFC 23/37 and RFC 15 (a specification
+independent of the source: the models are written in terms of the re-extracted constants, so a change made consistently to
+encoder and decoder would keep every rzmq↔rzmq theorem true while no other ZeroMQ implementation could be talked to) -/
+theorem wire_layout_is_zmtp :
+    Gen.GREETING_LENGTH = 64 ∧ Gen.SIGNATURE = [0xFF, 0, 0, 0, 0, 0, 0, 0, 0, 0x7F] ∧ Gen.SIGNATURE_LENGTH = 10
+    ∧ Gen.VERSION_MAJOR_OFFSET = 10 ∧ Gen.VERSION_MINOR_OFFSET = 11 ∧ Gen.GREETING_VERSION_MAJOR_BYTE = 3
+    ∧ Gen.MECHANISM_OFFSET = 12 ∧ Gen.MECHANISM_LENGTH = 20 ∧ Gen.AS_SERVER_OFFSET = 32
+    ∧ Gen.PADDING_OFFSET = 33 ∧ Gen.PADDING_LENGTH = 31
+    ∧ Gen.asServerFalse = 0 ∧ Gen.asServerTrue = 1
+    ∧ Gen.V2_GREETING_LENGTH = 12 ∧ Gen.REVISION_OFFSET = 10 ∧ Gen.V2_SOCKET_TYPE_OFFSET = 11 ∧ Gen.V2_REVISION = 1
+    ∧ [SockName.PAIR, .PUB, .SUB, .REQ, .REP, .DEALER, .ROUTER, .PULL, .PUSH].map codeOfName
+        = [some 0, some 1, some 2, some 3, some 4, some 5, some 6, some 7, some 8]
+    ∧ (List.range 9).map nameFromCode
+        = [some .PAIR, some .PUB, some .SUB, some .REQ, some .REP, some .DEALER, some .ROUTER, some .PULL, some .PUSH] := by
+  decide
+
 /-- ZMTP/2.0 and ZMTP/3.x use the same table (`socket_types_compatible`) -/
 theorem v2_v3_same_table : Gen.v2UsesSharedTable = 1 ∧ Gen.v3ValidatesSocketType = 1 := by
   decide
